@@ -572,7 +572,8 @@ EXTS = ["", ".hy", ".txt", ".hyx", ".py", ".PY", ".Py", ".pyw", ".pyi", ".p", ".
 def gen_ext_case(draw):
     from hypothesis import strategies as st
 
-    ext = draw(st.one_of(st.sampled_from(EXTS), st.text(alphabet="pyhYPx._-1", min_size=1, max_size=4).map(lambda s: "." + s)))
+    ext = draw(st.one_of(st.sampled_from(EXTS), st.sampled_from(["", ".py", ".py", ".hy"]),
+                         st.text(alphabet="pyhYPx._-1", min_size=1, max_size=4).map(lambda s: "." + s)))
     stem = draw(st.sampled_from(["prog", "my-script", "py-thing", "hy-thing", "a.py", "x.hy", "run_me"]))
     dirname = draw(st.sampled_from(["d", "dir.py", "src.hy", "x.y"]))
     return dict(kind="ext", stem=stem, ext=ext, dirname=dirname, hyval=draw(st.integers(0, 999)), pyval=draw(st.integers(0, 999)))
